@@ -268,7 +268,7 @@ PROPS = {
                "thorough": [mc("Own-3x3", maxops=3, clients=C3, ops=OWNOPS, scripts="ScriptsStop", cfgs="CfgsOwn", kinds="InitKindsOwn"),
                             mc("Own-abandon-2x3", maxops=3, ops=OWNOPS + ("abandon",), scripts="ScriptsPlain", cfgs="CfgsOwn", kinds="InitKindsOwn", must_cover=("Abandon",))]},
         "gen": {"quick": [gen("g-own-2x2", "Main_Own_B1", ops=("send", "join", "consume", "stop", "detach"))], "thorough": [gen("g-own-2x3", "Main_Own_B1", maxops=3, ops=("send", "join", "consume", "stop", "detach", "drop"))]},
-        "families": [("life", 250, 2500), ("fail", 100, 1000), ("stream", 100, 1000), ("timeout", 200, 2000), ("restart", 100, 1000), ("mix", 120, 1200)],
+        "families": [("life", 250, 2500), ("fail", 100, 1000), ("stream", 100, 1000), ("timeout", 200, 2000), ("restart", 100, 1000), ("awaiters", 100, 1000), ("mix", 120, 1200)],
         "relevant": r'"op":"(join|consume|consume_sync|detach)"', "relevant_min": 1,
     },
 }
